@@ -62,6 +62,7 @@ fn normalize(path: impl AsRef<Path>, keep_current_dir: bool) -> PathBuf {
     } else {
         Vec::new()
     };
+    let prefix_length = ret.len();
 
     for component in components {
         match component {
@@ -80,10 +81,12 @@ fn normalize(path: impl AsRef<Path>, keep_current_dir: bool) -> PathBuf {
                     if last == current_dir() {
                         ret.pop();
                         ret.push(parent_dir());
-                    } else if last != parent_dir() {
-                        ret.pop();
-                    } else {
+                    } else if last == Component::RootDir.as_os_str() {
+                        // the parent of the root directory is the root directory
+                    } else if last == parent_dir() || ret.len() == prefix_length {
                         ret.push(parent_dir());
+                    } else {
+                        ret.pop();
                     }
                 } else {
                     ret.push(parent_dir());
